@@ -100,6 +100,9 @@ fn run() {
                     }
                     lines.push(format!("seq {}", tick.context.sequence.value()));
                     lines.push(format!("terminal {}", if tick.event.is_terminal() { 1 } else { 0 }));
+                    // the event and the outputs the RECORD carries (not the event handed to the engine)
+                    lines.push(format!("rec_ev {}", tick_digest(w, &tick)));
+                    lines.push(format!("rec_out {}", tick_outputs(&tick)));
                     let rep = replica.as_mut().unwrap();
                     let res = feed_replica(rep, tick.clone());
                     last_tick = Some(tick);
@@ -114,7 +117,7 @@ fn run() {
                     // the property itself, evaluated on the two REAL states: the replica's orders equal the
                     // engine's once in-flight request markers are set aside (computed from the lines just
                     // printed: O(x) stays, C(x) is the open order under a cancel mark, F and C(-) are marks only)
-                    lines.push(format!("rep_sync {}", orders_in_sync(lines) as u8));
+                    lines.push(format!("rep_sync {}", orders_in_sync(lines, "ord", "rep_ord") as u8));
                 }
                 "rep_dup" | "rep_gap" => {
                     let w = world.as_ref().expect("init first");
@@ -179,6 +182,10 @@ fn run() {
                             _ => "other",
                         }
                     ));
+                    // the event every record received on the channel carries, in order
+                    for t in ticks.iter() {
+                        lines.push(format!("run_ev {}", tick_digest(&w, t)));
+                    }
                     let mut rep: Replica = StateReplicaManager::new(snapshot, ticks.into_iter());
                     let res = rep.run();
                     lines.push(format!("run_rep {}", if res.is_ok() { "ok" } else { "err" }));
@@ -188,6 +195,9 @@ fn run() {
                         "run_rep_rest_eq {}",
                         if states_equal_but_orders(&w.built.engine.state, rep.replica_engine_state()) { 1 } else { 0 }
                     ));
+                    // the order clause on the two REAL final states of the run (as `rep_sync`; when the
+                    // replica stopped with an error its state is the one it had reached)
+                    lines.push(format!("run_rep_sync {}", orders_in_sync(lines, "run_ord", "run_rep_ord") as u8));
                 }
                 other => panic!("bad op {other}"),
             }
@@ -195,8 +205,25 @@ fn run() {
     });
 }
 
-/// `ord<i> …` vs `rep_ord<i> …` of the current observation block, in-flight markers set aside
-fn orders_in_sync(lines: &[String]) -> bool {
+/// `rec_ev` / `run_ev`: digest of the event an audit record carries
+fn tick_digest(w: &World, tick: &Tick) -> String {
+    match &tick.event {
+        EngineAudit::FeedEnded => "feed-ended".into(),
+        EngineAudit::Process(p) => event_digest(w, &p.event),
+    }
+}
+
+/// `rec_out`: kinds of the outputs an audit record carries
+fn tick_outputs(tick: &Tick) -> String {
+    match &tick.event {
+        EngineAudit::FeedEnded => String::new(),
+        EngineAudit::Process(p) => output_kinds(p.outputs.as_ref()).join(" "),
+    }
+}
+
+/// `<eng_pfx><i> …` vs `<rep_pfx><i> …` (`ord`/`rep_ord`, `run_ord`/`run_rep_ord`) of the current
+/// observation block, in-flight markers set aside
+fn orders_in_sync(lines: &[String], eng_pfx: &str, rep_pfx: &str) -> bool {
     let start = lines.iter().rposition(|l| l == "@").map(|i| i + 1).unwrap_or(0);
     let strip = |l: &str| -> Vec<String> {
         l.split_whitespace()
@@ -209,9 +236,9 @@ fn orders_in_sync(lines: &[String]) -> bool {
             .collect()
     };
     let block = &lines[start..];
-    block.iter().filter(|l| l.starts_with("ord")).all(|l| {
+    block.iter().filter(|l| l.starts_with(eng_pfx)).all(|l| {
         let key = l.split_whitespace().next().unwrap();
-        let rep_key = format!("rep_{key}");
+        let rep_key = format!("{rep_pfx}{}", &key[eng_pfx.len()..]);
         block
             .iter()
             .find(|r| r.split_whitespace().next() == Some(rep_key.as_str()))
@@ -220,6 +247,20 @@ fn orders_in_sync(lines: &[String]) -> bool {
 }
 
 // ------------------------------------------------------------------------------- generation
+
+/// filter of a `cancel_orders` / `close_positions` command: mostly the default, otherwise any of the
+/// label-space forms (`none`, one or two exchanges, one or two instruments) so that the record's
+/// command (`rec_ev`) is told apart by its payload
+fn gen_filter(rng: &mut Rng, dflt: String, nex: usize, nins: usize) -> String {
+    match rng.below(10) {
+        0..=4 => dflt,
+        5 => "none".into(),
+        6 => format!("ex:{}", rng.below(nex as u64)),
+        7 => format!("ex:{},{}", rng.below(nex as u64), rng.below(nex as u64)),
+        8 => format!("ins:{}", rng.below(nins as u64)),
+        _ => format!("ins:{},{}", rng.below(nins as u64), rng.below(nins as u64)),
+    }
+}
 
 fn gen_case(rng: &mut Rng, out: &mut Out, tier: &str) {
     let nex = rng.range(1, 2) as usize;
@@ -298,8 +339,8 @@ fn gen_case(rng: &mut Rng, out: &mut Out, tier: &str) {
                 format!("ev resp {ins} {cid} {}", if rng.chance(50) { "ok" } else { "err" })
             }
             69..=71 => "ev shutdown".into(),
-            72..=77 => "ev cancel_orders none".into(),
-            78..=81 => format!("ev close_positions ins:{i}"),
+            72..=77 => format!("ev cancel_orders {}", gen_filter(rng, "none".into(), nex, nins)),
+            78..=81 => format!("ev close_positions {}", gen_filter(rng, format!("ins:{i}"), nex, nins)),
             82..=88 => {
                 if has_pos[i] && rng.chance(40) {
                     format!("ev reduce {i}")
